@@ -74,8 +74,8 @@ def main():
         meta["caught_by"] = [c for c in checks if res[c]["exit"] == 1]
         out_dir = os.path.join(ROOT, "seeded", a.seed)
         os.makedirs(out_dir, exist_ok=True)
-        shutil.copy(a.patch, os.path.join(out_dir, "patch.diff"))
-        shutil.copy(a.demo, os.path.join(out_dir, "demo.rs"))
+        for src, name in ((a.patch, "patch.diff"), (a.demo, "demo.rs")):
+            if os.path.realpath(src) != os.path.realpath(os.path.join(out_dir, name)): shutil.copy(src, os.path.join(out_dir, name))
         json.dump(meta, open(os.path.join(out_dir, "meta.json"), "w"), indent=1)
         return 0
     finally:
